@@ -61,9 +61,18 @@ Procedure to confirm each change yourself before delivering: with a clean worktr
 """
 
 
+ROUND_NOTE = (' Earlier rounds of this exercise already produced changes of the following kinds, so choose DIFFERENT mechanisms: decrypting or computing in place into caller buffers; '
+              'scratch buffers or cached structures (per algorithm, per kid, per external-data buffer) kept between calls; integer conversions that wrap (uint64 to int64) in label or algorithm handling; '
+              'hand-written CBOR head writers with boundary slips; normalising an empty protected bucket; memoising key_ops or copying the key inside factories; kid lookup by prefix; decoding into a non-empty destination; '
+              'off-by-one length checks in AEAD / HKDF code; a wrong hash for one algorithm; masking high bits of signatures; iota or alias slips in constant tables; pooled randomness that rewinds; Partial IV XOR done in place on the key. '
+              'Prefer logic errors in less-travelled code paths: error handling that swallows or reorders errors, conditions that are subtly too weak or too strong for one message kind only, default values, interplay between two '
+              'functions that each look fine, differences between the generic (map) and typed (struct) paths, and behaviour that depends on the ORDER of operations or of map / slice elements.')
+
+
 def main():
     rd = sys.argv[1]
-    only = sys.argv[2:]
+    only = [a for a in sys.argv[2:] if not a.startswith('--')]
+    note = ROUND_NOTE if '--avoid-known' in sys.argv else ''
     os.makedirs(rd, exist_ok=True)
     subprocess.run(['git', '-C', '/repo', 'worktree', 'prune'])
     for l in open(os.path.join(V, 'properties.jsonl')):
@@ -76,7 +85,7 @@ def main():
             subprocess.run(['git', '-C', '/repo', 'worktree', 'add', '-q', '--detach', wt, 'HEAD'], check=True)
         os.makedirs(out, exist_ok=True)
         txt = TEMPLATE.format(wt=wt, out=out, id=p['id'], title=p['title'], statement=p['statement'], quant=p['quantifier']['text'],
-                              why=p['why_tests_cant'], anchors=', '.join(p['anchors']['files']), hint=HINTS.get(p['id'], ''))
+                              why=p['why_tests_cant'], anchors=', '.join(p['anchors']['files']), hint=HINTS.get(p['id'], '') + note)
         open(os.path.join(rd, p['id'] + '.prompt'), 'w').write(txt)
     print('prompts in', rd)
 
